@@ -330,11 +330,14 @@ func (in *Interp) runPath(run func()) (end pathEnd) {
 		in.sched.abortAll()
 		if pp := in.sched.pendingPanic; pp != nil {
 			if ep, ok := pp.(enginePanic); ok {
-				fmt.Fprintln(os.Stderr, ep.msg)
+				// the engine met something it cannot interpret (e.g. reflection): this path is
+				// inconclusive; the other paths and their verdicts stand
 				if os.Getenv("GOSYM_STACK") != "" {
+					fmt.Fprintln(os.Stderr, ep.msg)
 					fmt.Fprintln(os.Stderr, ep.stack)
 				}
-				os.Exit(3)
+				end = pathEnd{"unsupported", ep.msg}
+				return
 			}
 			panic(pp)
 		}
@@ -348,11 +351,11 @@ func (in *Interp) runPath(run func()) (end pathEnd) {
 		case targetPanic:
 			end = pathEnd{"panic", fmtValue(r.v)}
 		case enginePanic:
-			fmt.Fprintln(os.Stderr, r.msg)
 			if os.Getenv("GOSYM_STACK") != "" {
+				fmt.Fprintln(os.Stderr, r.msg)
 				fmt.Fprintln(os.Stderr, r.stack)
 			}
-			os.Exit(3)
+			end = pathEnd{"unsupported", r.msg}
 		default:
 			panic(r)
 		}
